@@ -184,7 +184,7 @@ def gen(rng, tier):
     # (c) keyword mutations, followed by the valid configuration in the same module and in a fresh one
     for k in range(m * 2):
         want = MUT_KINDS[k % len(MUT_KINDS)]          # every kind of mutation in turn
-        base = BASE[3] if want in ("fewer", "more") else BASE[k % len(BASE)]
+        base = BASE[-1] if want in ("fewer", "more") else BASE[k % len(BASE)]
         bad, kind = mutate_keyword(rng, base, want)
         r2 = rng.fork()
         st = steps(r2)
@@ -202,7 +202,7 @@ def gen(rng, tier):
     # (c') rejected configuration, then the corrected one WITHOUT reset
     for k in range(m):
         want = MUT_KINDS[(k + 5) % len(MUT_KINDS)]
-        base = BASE[3] if want in ("fewer", "more") else BASE[k % len(BASE)]
+        base = BASE[-1] if want in ("fewer", "more") else BASE[k % len(BASE)]
         bad, kind = mutate_keyword(rng, base, want)
         r2 = rng.fork()
         st = steps(r2)
